@@ -40,6 +40,8 @@ enum ArrOp {
 
 #[derive(Clone, Debug)]
 enum InlOp {
+    /// extend with pairs, some of which may name keys that are already there (they are overwritten)
+    Extend(Vec<(String, i64)>),
     Insert(String, i64),
     Remove(String),
     GetOrInsert(String, i64),
@@ -103,6 +105,7 @@ fn op_name(op: &Op) -> &'static str {
             InlOp::Sort => "InlineTable::sort_values",
             InlOp::Clear => "InlineTable::clear",
             InlOp::Fmt => "InlineTable::fmt",
+            InlOp::Extend(_) => "InlineTable::extend",
         },
         Op::NestedAssign { .. } => "IndexMut nested assign",
     }
@@ -492,6 +495,11 @@ fn apply_model(root: &mut KTable, op: &Op) -> bool {
                     InlOp::Sort => sort_val(t),
                     InlOp::Clear => t.entries.clear(),
                     InlOp::Fmt => {}
+                    InlOp::Extend(pairs) => {
+                        for (k, v) in pairs {
+                            t.insert(k, RVal::Int(*v));
+                        }
+                    }
                 }
                 true
             }
@@ -665,6 +673,29 @@ fn apply_real(doc: &mut DocumentMut, op: &Op) -> Result<(), String> {
         }
         Op::Arr { tp, key, op } => {
             let a: &mut Array = table_mut(root, tp).and_then(|t| t.get_mut(key)).and_then(|i| i.as_array_mut()).ok_or_else(|| miss("array"))?;
+            // the elements an operation does not name keep their own text, blanks and comments
+            // included (what `Value::to_string` shows for each of them)
+            let before: Vec<String> = a.iter().map(|v| v.to_string()).collect();
+            let expected_after: Option<Vec<Option<String>>> = match op {
+                ArrOp::Push(_) => Some(before.iter().cloned().map(Some).chain(std::iter::once(None)).collect()),
+                ArrOp::PushMany(n, _) => Some(before.iter().cloned().map(Some).chain(std::iter::repeat(None).take(*n)).collect()),
+                ArrOp::Insert(i, _) if *i <= before.len() => {
+                    let mut v: Vec<Option<String>> = before.iter().cloned().map(Some).collect();
+                    v.insert(*i, None);
+                    Some(v)
+                }
+                ArrOp::Replace(i, _) if *i < before.len() => {
+                    let mut v: Vec<Option<String>> = before.iter().cloned().map(Some).collect();
+                    v[*i] = None;
+                    Some(v)
+                }
+                ArrOp::Remove(i) if *i < before.len() => {
+                    let mut v: Vec<Option<String>> = before.iter().cloned().map(Some).collect();
+                    v.remove(*i);
+                    Some(v)
+                }
+                _ => None,
+            };
             match op {
                 ArrOp::Push(v) => a.push(*v),
                 ArrOp::Insert(i, v) => a.insert(*i, *v),
@@ -691,6 +722,19 @@ fn apply_real(doc: &mut DocumentMut, op: &Op) -> Result<(), String> {
                     a.sort_by(|x, y| x.as_integer().map_or(-1, |i| i.rem_euclid(m)).cmp(&y.as_integer().map_or(-1, |i| i.rem_euclid(m))));
                 }
             }
+            if let Some(exp) = &expected_after {
+                let after: Vec<String> = a.iter().map(|v| v.to_string()).collect();
+                if after.len() != exp.len() {
+                    return Err(format!("VERBATIM the array has {} elements, {} expected", after.len(), exp.len()));
+                }
+                for (j, (got, want)) in after.iter().zip(exp.iter()).enumerate() {
+                    if let Some(w) = want {
+                        if got != w {
+                            return Err(format!("VERBATIM element {j} was not named by the operation but its text changed from {w:?} to {got:?}"));
+                        }
+                    }
+                }
+            }
         }
         Op::Inl { tp, key, op } => {
             let t: &mut InlineTable = table_mut(root, tp).and_then(|t| t.get_mut(key)).and_then(|i| i.as_inline_table_mut()).ok_or_else(|| miss("inline table"))?;
@@ -715,6 +759,7 @@ fn apply_real(doc: &mut DocumentMut, op: &Op) -> Result<(), String> {
                 InlOp::Sort => t.sort_values(),
                 InlOp::Clear => t.clear(),
                 InlOp::Fmt => t.fmt(),
+                InlOp::Extend(pairs) => t.extend(pairs.iter().map(|(k, v)| (k.as_str(), Value::from(*v)))),
             }
         }
         Op::NestedAssign { tp, key, key2, val } => {
@@ -826,7 +871,12 @@ fn gen_op(rng: &mut Rng, model: &KTable, counter: &mut i64) -> Op {
                     _ => vec![],
                 };
                 let k2 = if !sub.is_empty() && rng.coin() { sub[rng.below(sub.len())].clone() } else { fresh(rng) };
-                let op = match rng.below(7) {
+                let op = match rng.below(8) {
+                    7 => {
+                        // an existing key, a new one, and the new one again
+                        let other = fresh(rng);
+                        InlOp::Extend(vec![(k2, c), (other.clone(), c + 1), (other, c + 2)])
+                    }
                     0 | 1 => InlOp::Insert(k2, c),
                     2 => InlOp::Remove(k2),
                     3 => InlOp::GetOrInsert(k2, c),
@@ -995,7 +1045,10 @@ impl C08 {
                     return;
                 }
                 Ok(Err(e)) => {
-                    ctx.violation(&format!("edit-structure-differs:{name}"), format!("step {step} {op:?}: {e}"));
+                    match e.strip_prefix("VERBATIM ") {
+                        Some(rest) => ctx.violation(&format!("untouched-element-text-changed:{name}"), format!("step {step} {op:?}: {rest}")),
+                        None => ctx.violation(&format!("edit-structure-differs:{name}"), format!("step {step} {op:?}: {e}")),
+                    }
                     return;
                 }
                 Ok(Ok(p)) => p,
